@@ -307,6 +307,56 @@ static int coop_unlock(pthread_mutex_t *m)
     return r;
 }
 
+/* stdio stream locks taken explicitly by the library (flockfile/funlockfile) are locks like its mutexes: the cooperative scheduler has
+ * to know about them (a switch while one is held must not leave the next thread blocked inside libc), and in PARK mode they count as
+ * library locks held */
+static void (*real_flockfile)(FILE *), (*real_funlockfile)(FILE *);
+static int (*real_ftrylockfile)(FILE *);
+static void init_flock(void)
+{
+    if (real_flockfile) return;
+    real_ftrylockfile = (int (*)(FILE *)) dlsym(RTLD_NEXT, "ftrylockfile");
+    real_funlockfile = (void (*)(FILE *)) dlsym(RTLD_NEXT, "funlockfile");
+    real_flockfile = (void (*)(FILE *)) dlsym(RTLD_NEXT, "flockfile");
+}
+static void park_event(void);
+VIS void flockfile(FILE *f)
+{
+    init_real(); init_flock();
+    void *ra = __builtin_return_address(0);
+    int lib = lib_lo && (uintptr_t) ra >= lib_lo && (uintptr_t) ra < lib_hi;
+    if (mode == MODE_OFF || !lib || in_child) { real_flockfile(f); return; }
+    if (mode == MODE_PARK) { real_flockfile(f); lock_depth++; park_event(); return; }
+    if (my_index < 0) { real_flockfile(f); return; }
+    coop_point('l');
+    for (;;) {
+        if (real_ftrylockfile(f) == 0) { tr('L'); return; }
+        int me = my_index;
+        cth[me].state = 2; cth[me].waits = (pthread_mutex_t *) (void *) f;
+        tr('b');
+        int j = pick_next(me);
+        if (j < 0) {
+            report_deadlock("no runnable thread: every thread waits for a lock");
+            cdone_word = 1; fwake(&cdone_word);
+            for (;;) pause();
+        }
+        switch_to(j);
+        cth[me].state = 1; cth[me].waits = NULL;
+    }
+}
+VIS void funlockfile(FILE *f)
+{
+    init_real(); init_flock();
+    void *ra = __builtin_return_address(0);
+    int lib = lib_lo && (uintptr_t) ra >= lib_lo && (uintptr_t) ra < lib_hi;
+    real_funlockfile(f);
+    if (mode == MODE_OFF || !lib || in_child) return;
+    if (mode == MODE_PARK) { if (lock_depth > 0) lock_depth--; just_unlocked = 1; park_event(); just_unlocked = 0; return; }
+    if (my_index < 0) return;
+    for (int i = 0; i < cnthreads; i++) if (cth[i].state == 2 && cth[i].waits == (pthread_mutex_t *) (void *) f) cth[i].state = 1;
+    coop_point('u');
+}
+
 /* ------------------------------------------------------------------ generic call points (tramp.S)
  * Every call libsnoopy.so makes to one of the trampolined libc functions lands here first (return address + index);
  * the function returns the address of the real implementation, to which the trampoline jumps with all argument
